@@ -844,10 +844,15 @@ def run(ctx):
     jobs += [(lambda n=n: model_eval(ctx, f"srv_{n}", srv_e[n], big=True)) for n in range(n_ride, len(srv_e))]
     plainz = []
     if tier != "quick" and plain_P:
-        # axiom-free cross-check of the BigN evaluator: A_b once through powm on plain Z (about 1 s per modular multiplication)
-        plainz = [P for P in plain_P if P["impl"]["status"] == "ok"][:1] + [P for P in plain_P if P["case"]["kind"] == "a-small"][:2]
-        jobs += [(lambda n=n, P=P: model_eval(ctx, f"plainz_{n}", [f"PAD HK_KEY_LENGTH (powm G3072 {P['a']} N3072)"], timeout=2400))
-                 for n, P in enumerate(plainz)]
+        # axiom-free cross-check of the BigN evaluator: A_b through powm on plain Z (about 1 s per 3072-bit modular
+        # multiplication, so a 40-bit ephemeral and the a-small ones), against the real client
+        for a_ in [0xC0FFEE1234] + sorted({P["a"] for P in plain_P if P["case"]["kind"] == "a-small"})[:3]:
+            r_ = impl_run("123-45-678", a_, bytes(16), R.PAD(5), [])
+            if r_["status"] == "ok":
+                plainz.append(dict(a=a_, A_b=r_["A_b"]))
+        q = "AHK.Model.Srp."
+        jobs += [(lambda n=n, z=z: model_eval(ctx, f"plainz_{n}", [f"{q}PAD {q}HK_KEY_LENGTH ({q}powm {q}G3072 {z['a']}%Z {q}N3072)"],
+                                             timeout=2400)[0]) for n, z in enumerate(plainz)]
     jobs += [(lambda i=i, part=part: model_eval(ctx, f"sha_{i}", ["map sha_case [" + "; ".join(lit(m) for m in part) + "]"])[0])
              for i, part in enumerate(sha_parts)]
     jobs.append(lambda: model_eval(ctx, "tba", ["map (fun p => to_byte_array_case (fst p) (snd p)) ["
@@ -886,12 +891,12 @@ def run(ctx):
              "outside what C02 states (the controller), so it is recorded here and becomes a violation only with "
              "VERIF_C02_STRICT_SRPSERVER=1; fixes/C02-srpserver-zero-public-key.patch adds the RFC 5054 check")
     cov.extra["seams"] = dict(SEAM_USED)
-    for P, mr in zip(plainz, plainz_out):
-        ok = bytes(mr) == P["impl"]["A_b"]
-        cov.case("plainz" + str(P["a"]), True, stream="plain-Z-crosscheck", plainz_agree=ok)
+    for z, mr in zip(plainz, plainz_out):
+        ok = bytes(mr) == z["A_b"]
+        cov.case("plainz" + str(z["a"]), True, stream="plain-Z-crosscheck", plainz_agree=ok)
         if not ok:
             viols.append(violation("plainz:public-key", "A_b evaluated with powm on plain Z (no BigN, no Uint63 axioms) differs from the "
-                                   "implementation", False, a=str(P["a"]), model=bytes(mr).hex(), impl=P["impl"]["A_b"].hex()))
+                                   "implementation", False, a=str(z["a"]), model=bytes(mr).hex(), impl=z["A_b"].hex()))
 
     # ---- session sequences
     seq_viols = []           # reported after the single-exchange violations (the runner keeps the first per key)
